@@ -72,7 +72,7 @@ Print Assumptions C01_probe_text.
 Example C01_nonvacuous :
   exists s, run (init 0)
     [Enq 100 IKA; Enq 1 (ICmd 1 [65]%N); Enq 2 (ICmd 2 [66]%N);
-     SDeq IKA; SSetFlag; SLogAdd t_probe; SLockAcq; SWriteA (frame t_probe); SLockRel;
+     SDeq IKA; SCheckConn true; SSetFlag; SLogAdd t_probe; SLockAcq; SWriteA (frame t_probe); SLockRel;
      SSleepStartA p_spacing; Tick p_spacing; SWake; SDeq (ICmd 7 [65]%N)] = Some s
   /\ g_drained s = [] /\ map snd (g_wire s) = [IKA] /\ hand (spc_ s) = [ICmd 1 [65]%N].
 Proof. eexists. split; [vm_compute; reflexivity|repeat split]. Qed.
